@@ -284,6 +284,22 @@ def run(ctx):
                   "%s is written in %s; audited writer: %s" % (f_, sorted(w), sorted(al)), str(sorted(w)))
 
     # ------------------------------------------------------------------ C04-e / C04-f the two incremental readers
+    # the driver of the control stream is never parked by anything but the control stream itself: a Pending answer of
+    # poll_control means "no control frame yet" (the stream's poll_next answered Pending, or no control stream was accepted yet
+    # although the accept loop was driven). Subordinate work it drives on the side (the grease stream) must not gate it.
+    pc = ru.need(ctx, "C04-c", CI + "poll_control")
+    if pc:
+        pend = [p for p in ru.all_paths(ctx, "C04-c", pc, max_visits=1) if p.end == "return" and p.ret_shape() == "Pending"]
+        ctx.floor("C04-c", "Pending paths of poll_control", len(pend), 2)
+        for p in pend:
+            pn = p.outcomes("h3::frame::FrameStream::poll_next", "FrameStream::poll_next")
+            none_yet = [t[2] for t in p.tests if t[3][0] == "discr" and pa.vfmt(t[3][1]).endswith(".control_recv")]
+            ok = p.has_call(CI + "poll_accept_recv") and (pn[:1] == ["Pending"] or none_yet[-1:] == ["None"])
+            last = [pa.short(pa.source_call(t[3])[0] or "?") + "=" + t[2] for t in p.tests if t[3][0] == "discr"][-2:]
+            ctx.check(ok, "C04-c", pc.key, "Pending only when the control stream itself is pending (or none was accepted yet)",
+                      "poll_control answers Pending on a path that did not get Pending from the control stream's poll_next (last decisions: %s): "
+                      "while that other operation is blocked (e.g. the grease stream's write under flow control) the peer's SETTINGS / GOAWAY / "
+                      "MAX_PUSH_ID are not read" % last, "", None, p.describe())
     shared.frame_decoder_memo(ctx, "C04-e")
     nv = ru.need(ctx, "C04-e", "h3::stream::AcceptRecvStream::poll_next_varint")
     if nv:
